@@ -44,7 +44,9 @@ Definition sasl_negotiateServer_returns : list (bytes * bytes) := [
   ((hex "30"), (hex "657272"));  (* return 0, nil, err *)
   ((hex "30"), (hex "657272"));  (* return 0, nil, err *)
   ((hex "30"), (hex "657272"));  (* return 0, nil, err *)
+  ((hex "30"), (hex "657272"));  (* return 0, nil, err *)
   ((hex "417574686e"), (hex "6e696c"));  (* return Authn, session.Conn(), nil *)
+  ((hex "30"), (hex "657272"));  (* return 0, nil, err *)
   ((hex "30"), (hex "657272"));  (* return 0, nil, err *)
   ((hex "417574686e"), (hex "6e696c"))  (* return Authn, session.Conn(), nil *)
 ].
